@@ -125,7 +125,16 @@ func (w *World) shortName(n *types.Named) string {
 	if obj.Pkg() == nil || obj.Pkg().Path() == w.pkgPath {
 		return obj.Name()
 	}
-	return obj.Pkg().Name() + "_" + obj.Name()
+	name := obj.Pkg().Name() + "_" + obj.Name()
+	if ta := n.TypeArgs(); ta != nil && ta.Len() > 0 {
+		// instantiations of a generic library type are different structs
+		args := ""
+		for i := 0; i < ta.Len(); i++ {
+			args += types.TypeString(ta.At(i), nil)
+		}
+		name += fmt.Sprintf("_%x", hashStr(args))
+	}
+	return name
 }
 
 func (w *World) typeName(t types.Type) string {
@@ -183,7 +192,12 @@ func (w *World) structOf(t types.Type) (*StructInfo, bool) {
 	w.structs[name] = si
 	for i := 0; i < st.NumFields(); i++ {
 		f := st.Field(i)
-		si.Fields = append(si.Fields, FieldInfo{Name: f.Name(), Sort: w.SortOf(f.Type()), Type: f.Type()})
+		fname := f.Name()
+		if fname == "_" {
+			// blank fields (padding, noCopy markers) can repeat in one struct: accessor names must not
+			fname = fmt.Sprintf("blank%d", i)
+		}
+		si.Fields = append(si.Fields, FieldInfo{Name: fname, Sort: w.SortOf(f.Type()), Type: f.Type()})
 	}
 	return si, true
 }
